@@ -63,6 +63,9 @@ func genC10(t *rapid.T) Script {
 			a.Kind = "stream"
 			a.Stream = stats.B(genC10Stream(t))
 			a.End = stats.From(t, []string{"eof", "eof", "err"}, "end")
+			if a.End == "err" && stats.Pct(t, "timeouterr") < 35 {
+				a.ErrKind = "deadline" // a net.Error with Timeout() true, like http.Client.Timeout firing while the body is read
+			}
 			if rapid.Bool().Draw(t, "chunked") {
 				a.Chunks = []int{1 + stats.Pick(t, 9, "chunk")}
 			}
